@@ -19,9 +19,9 @@ type fnCollator[V any] struct {
 
 func (c *fnCollator[V]) GetClass() age.CollatorClassLike[V] { return age.Collator[V]() }
 func (c *fnCollator[V]) CompareValues(a, b V) bool          { return c.rank(a, b) == age.EqualRank }
-func (c *fnCollator[V]) RankValues(a, b V) age.Rank          { return c.rank(a, b) }
-func (c *fnCollator[V]) GetDepth() int                       { return 0 }
-func (c *fnCollator[V]) GetMaximum() int                     { return 16 }
+func (c *fnCollator[V]) RankValues(a, b V) age.Rank         { return c.rank(a, b) }
+func (c *fnCollator[V]) GetDepth() int                      { return 0 }
+func (c *fnCollator[V]) GetMaximum() int                    { return 16 }
 
 func rankOfInts(a, b int) age.Rank {
 	switch {
@@ -58,9 +58,9 @@ type setElem[E any] struct {
 }
 
 type setOp struct {
-	Op string `json:"op"`
-	V  int    `json:"v,omitempty"`
-	Vs []int  `json:"vs,omitempty"`
+	Op string  `json:"op"`
+	V  int     `json:"v,omitempty"`
+	Vs []int   `json:"vs,omitempty"`
 	I  *idxArg `json:"i,omitempty"`
 	J  *idxArg `json:"j,omitempty"`
 }
